@@ -553,8 +553,8 @@ def run_tree_1(rep, ctx, idx, tree, stats, formats, clis, probe, do_compare, kp)
             # defect classes that show on every pipeline are reported once, with the list of pipelines
             if key in CLASS_KEYS:
                 class_hit(ctx, "C12:" + key, tag, what, rp)
-            elif probe == "name-nfd":
-                class_hit(ctx, "C12:probe-name-nfd", tag, what, rp)
+            elif probe:
+                class_hit(ctx, "C12:probe-" + probe, tag, what, rp)
             else:
                 rep.violation("%s%s:%s" % (kp, key, tag), "[%s] %s" % (tag, what), rp, found_input=True)
         shutil.rmtree(dst, ignore_errors=True)
@@ -666,7 +666,7 @@ def tree_plan(rep):
         plan.append(gen_tree(r, 25, 3, {}, chain=17))          # beyond PATH_MAX
         plan.append(gen_tree(r, 50, 5, {}))
     else:
-        for k in range(24):
+        for k in range(16):
             plan.append(gen_tree(r, r.choice([30, 80, 200, 400]), r.choice([3, 6, 9, 12]), {"xattr_bin": k % 3 == 0}))
         for k in range(4):
             plan.append(gen_tree(r, 60, 5, {}, chain=r.choice([17, 20, 40])))
@@ -693,6 +693,9 @@ def probe_plan():
          ["pax"], ["bsdtar-pax"], True, None),
         ("name-nfd", mk(1, b"t", [mk(0, nfd + b"1", 1, size=3, segs=[(0, 3, 1)]), mk(0, b"plain", 2, size=1, segs=[(0, 1, 2)])]),
          ["pax", "gnutar", "zip"], ["bsdtar-pax", "bsdtar-gnutar"], True, None),
+        ("xar-shebang", mk(1, b"t", [mk(0, b"script", 1, size=12, segs=[(0, 12, 0, b"#!\x85\xad\x03\x7f\xbf\nrest")]),
+                                     mk(0, b"other", 2, size=2, segs=[(0, 2, 5)])]),
+         ["xar"], [], True, None),
         ("c-locale-symlink", mk(1, b"t", [mk(2, b"lnk", "\u65e5\u672c".encode()), mk(0, b"f", 1, size=1, segs=[(0, 1, 3)])]),
          ["7zip"], [], False, {"LC_ALL": "C", "LANG": "C"}),
     ]
